@@ -57,6 +57,12 @@ def on_stop_oracle(ix: Index) -> list[Violation]:
             out.append(Violation("stop-flag", "want-true", f"{c}: on_stop(False) although a graceful disconnect had been initiated before the close ({'; '.join(why)})"))
         if not may_true and expected:
             out.append(Violation("stop-flag", "want-false", f"{c}: on_stop(True) although no disconnect call and no device DisconnectRequest preceded the close"))
+    # the user-level callback carries the flag of ITS session (nothing carried over from an earlier attempt of the client)
+    conn_flags = [e for _sq, e in sorted(x for c in ix.conns for x in ix.on_stop.get(c, []))]
+    user_flags = [e for _sq, _tag, e in sorted(ix.user_on_stop)]
+    if len(conn_flags) == len(user_flags) and conn_flags != user_flags and all(cn.startswith("conn") for cn in ix.conns):
+        k = next(i for i, (a, b) in enumerate(zip(conn_flags, user_flags)) if a != b)
+        out.append(Violation("user-stop-flag", f"{user_flags[k]}", f"stop callback #{k} of the client was invoked with {user_flags[k]}, the session it belongs to ended with expected={conn_flags[k]}"))
     # user-level callback follows the connection-level one (APIClient schedules it as a background task)
     n_conn = sum(len(v) for v in ix.on_stop.values())
     if ix.audit is not None and not ix.audit.get("tasks") and len(ix.user_on_stop) != n_conn and all(cn.startswith("conn") for cn in ix.conns):
@@ -126,6 +132,19 @@ class C07(CheckBase):
                     scn["events"].append({"at": trig, "do": "dev", "act": {"msgs": [["DisconnectRequest", {}]], "latency": 0.0}})
                 else:
                     scn = with_cause(scn, how, trig, "pre", rng)
+                yield scn
+                return
+            if rng.random() < 0.25:
+                # an earlier attempt of the same client that never got connected and was ended by the caller; the session
+                # established afterwards is ended by the device: its stop reason must not inherit anything
+                main = scn["actors"][0]["steps"]
+                k = next((i for i, st in enumerate(main) if st["do"] in ("connect", "finish")), 0)
+                first = pick(rng, [[{"do": "start"}, {"do": "disconnect", "force": rng.random() < 0.5}], [{"do": "start"}, {"do": "disconnect", "force": True}, {"do": "start"}, {"do": "disconnect"}]])
+                scn["actors"] = [{"id": "a0", "at": {"t": 0.0}, "steps": first + [{"do": "connect", "login": rng.random() < 0.5}, {"do": "sleep", "d": 30.0}]}]
+                scn["events"] = [e for e in scn["events"] if e.get("do") == "dev"]
+                trig = {"on": "state", "match": {"new": "CONNECTED"}, "delay": pick(rng, [0.05, 1.0])}
+                scn = with_cause(scn, pick(rng, ["fin", "rst", "garbage", "eio"]), trig, "pre", rng)
+                scn["net"]["connect"] = {a: [{"outcome": "ok", "latency": 0.001}] for a in scn["client"]["addresses"]}
                 yield scn
                 return
             if rng.random() < 0.7:
